@@ -535,6 +535,10 @@ class _Metadata:
         object.__setattr__(self, '_fields', fields)
 
     def __getattr__(self, name):
+        # (Copying and unpickling look up special methods on an object whose
+        # __init__ has not run yet.)
+        if name == '_fields' or name.startswith('__'):
+            raise AttributeError(name)
         return self._fields.get(name)
 
     def __setattr__(self, name, value):
